@@ -331,6 +331,55 @@ fn en_passant_only_evasion(rng: &mut Rng) -> Option<Pos> {
     None
 }
 
+/// "for all positions" includes those with far more moves than any game has: the side to move
+/// owns eight to eleven queens and rooks (more than 128 pseudo-legal moves), the defender a few
+/// pieces, and only a few of all those moves mate at once - or, as a threat, only a few avoid
+/// being mated. A move list that is capped, a buffer that is too short or an ordering that
+/// loses its tail shows here and nowhere else (seeded defect C12-q).
+fn crowded_mate(rng: &mut Rng) -> Option<Pos> {
+    for _ in 0..3000 {
+        let mut sqs = [EMPTY; 64];
+        let white = rng.chance(1, 2);
+        let (me, other) = if white { (0, BLACK) } else { (BLACK, 0) };
+        let mut free: Vec<usize> = (0..64).collect();
+        rng.shuffle(&mut free);
+        let mut take = || free.pop().unwrap();
+        sqs[take()] = K | me;
+        sqs[take()] = K | other;
+        for _ in 0..rng.range(8, 12) {
+            sqs[take()] = if rng.chance(4, 5) { Q | me } else { R | me };
+        }
+        for _ in 0..rng.below(5) {
+            let s = take();
+            let t = *rng.pick(&[Q, R, B, N, P, P]);
+            if t == P && !(8..56).contains(&s) {
+                continue;
+            }
+            sqs[s] = t | other;
+        }
+        let pos = Pos {
+            sq: sqs,
+            white,
+            castle: [false; 4],
+            ep: None,
+            hmc: rng.below(21) as u32,
+            fmn: rng.range(1, 90) as u32,
+        };
+        if !pos.is_sane() || pos.pseudo_moves().len() <= 128 {
+            continue;
+        }
+        let legal = pos.legal_moves().len();
+        if legal == 0 {
+            continue;
+        }
+        let mates = Solver::mating_moves(&pos).len();
+        if mates >= 1 && mates <= 2 {
+            return Some(pos);
+        }
+    }
+    None
+}
+
 pub fn candidate(rng: &mut Rng) -> Option<Pos> {
     match rng.below(15) {
         13 => en_passant_only_evasion(rng),
@@ -357,8 +406,12 @@ pub fn generate(cx: &super::GenCtx) -> Vec<Plan> {
     let seed = cx.seed;
     let mut rng = Rng::new(seed);
     let mut found = None;
+    // one case in twelve: a crowded board (kept apart from the draw below so that the other
+    // cases of a seed stay what they were)
+    let crowded = cx.index % 12 == 7;
     for _ in 0..400 {
-        let Some(p) = candidate(&mut rng) else { continue };
+        let c = if crowded { crowded_mate(&mut rng) } else { candidate(&mut rng) };
+        let Some(p) = c else { continue };
         if p.legal_moves().is_empty() {
             continue;
         }
@@ -537,6 +590,9 @@ pub fn check(plans: &[Plan], recs: &[RunRec]) -> Outcome {
     }
     if class.threat {
         out.stats.inc("cases.avoidable_mate_threat");
+    }
+    if pos.pseudo_moves().len() > 128 {
+        out.stats.inc("cases.more_than_128_pseudo_legal_moves");
     }
     let mut earlier = 0;
     let mut completed3_before = false;
